@@ -10,16 +10,18 @@ these Go types), over the byte-level model `Wire/Msgpack.lean`; tie: family `wir
 * "deterministic, independent of map insertion and iteration order": `encode_order_independent*`
 * "decoding then re-encoding reproduces the same bytes": `decode_encode*`, `encode_injective`
 * "whatever byte string is accepted, the caveats are those whose canonical encoding the signature
-  covers": `reencode_fixed_point*` (with `signed_is_cleared` of the token layer)
+  covers": `signed_is_cleared_bytes` (= `verify_tail` of the token layer + `reencode_fixed_point_mac`)
 * "caveats of unknown type pass through byte-for-byte": `unregistered_passthrough`, `unknown_type_is_kept`
 
 `fuel` is the nesting budget of the model's decoders (the Go code has none, see C12); every
 statement holds for every budget that admits the value at all.  The JSON half is elsewhere.
 -/
 import Macaroon.Lemmas.Codec
+import Macaroon.Lemmas.CodecVerify
+import Macaroon.Lemmas.ConcreteCrypto
 
 namespace Macaroon.Props.C11
-open Macaroon Macaroon.Msgpack Macaroon.Codec Macaroon.Dec
+open Macaroon Macaroon.Msgpack Macaroon.Codec Macaroon.Dec Macaroon.Lemmas
 
 /-! ### encoding is independent of the order in which a resource set was filled -/
 
@@ -242,13 +244,59 @@ theorem unregistered_passthrough_in_set (fuel t : Nat) (tv v : V) (rest : List V
       (cavPairs fuel rest >>= fun cs => pure (.unregistered (UInt64.ofNat t) (enc v) :: cs)) :=
   cavPairs_unregistered fuel t tv v rest htv ht hn hg
 
-/-- no caveat is ever dropped (or invented): the array header of an accepted byte string declared
-exactly two elements — type and body — per returned caveat, of whatever type -/
+/-- no caveat is ever dropped, invented or retyped: the array header of an accepted byte string
+declared exactly two elements — type and body — per returned caveat, of whatever type; the elements
+pair up as (type number, body) (`wirePairs`: the type read as a `uint64` from any integer encoding),
+and position by position (`AllKept`) the returned caveat has the type number of its pair: under a
+registered number the caveat of that kind, under any other number `unregistered typ raw` with that
+number and the body bytes — the one exception being a `nil` body under an unregistered number, for
+which the library zeroes the whole value (`unregistered 0 []`: not encodable, clears nothing) -/
 theorem unknown_type_is_kept (fuel : Nat) (bs : Bytes) (cs : List (Cav Bytes))
     (h : decodeCavs fuel bs = some cs) :
-    ∃ f xs rest, dec fuel bs = some (.arr f xs, rest) ∧ xs.length = 2 * cs.length ∧
-      bs = encLen 0x90 0xdc 0xdc 0xdd f (2 * cs.length) ++ encL xs ++ rest :=
-  decodeCavs_header fuel bs cs h
+    ∃ f xs rest ps, dec fuel bs = some (.arr f xs, rest) ∧ xs.length = 2 * cs.length ∧
+      bs = encLen 0x90 0xdc 0xdc 0xdd f (2 * cs.length) ++ encL xs ++ rest ∧
+      wirePairs xs.toList = some ps ∧ AllKept cs ps := by
+  obtain ⟨f, xs, rest, hd, hl, hb⟩ := decodeCavs_header fuel bs cs h
+  obtain ⟨f', xs', rest', ps, hd', hp, hk⟩ := decodeCavs_types fuel bs cs h
+  rw [hd] at hd'
+  cases hd'
+  exact ⟨f, xs, rest, ps, hd, hl, hb, hp, hk⟩
+
+/-- what `AllKept` says at one position -/
+theorem type_number_at (cs : List (Cav Bytes)) (ps : List (Nat × V)) (h : AllKept cs ps) (i : Nat) (c : Cav Bytes)
+    (hc : cs[i]? = some c) :
+    cs.length = ps.length ∧ ∃ t b, ps[i]? = some (t, b) ∧
+      ((registered t = true ∧ c.typ = UInt64.ofNat t) ∨
+       (registered t = false ∧ b ≠ .nil ∧ c = .unregistered (UInt64.ofNat t) (enc b)) ∨
+       (registered t = false ∧ b = .nil ∧ c = .unregistered 0 [])) := by
+  obtain ⟨p, hp, hk⟩ := h.get i c hc
+  exact ⟨h.length_eq, p.1, p.2, hp, hk⟩
+
+/-! ### what is signed is what is cleared -/
+
+/-- For ANY byte string `bs` that `Decode` accepts (canonical or not) and that `Verify` accepts under
+`k` with any discharges:
+1. every caveat of the decoded token is well formed, and the tail the verifier recomputed — and found
+   equal to the presented one — is the HMAC chain (`macChain`) over the CANONICAL encodings `encCav c`
+   of exactly the decoded caveats, in order (finalised for a proof);
+2. the caveats handed to clearing are those decoded caveats (third-party and binding caveats are
+   checked, not returned), followed by caveats of presented discharges that decode;
+3. the canonical re-encoding of the token decodes to the very same token (nesting budget `+2`, see
+   `reencode_fixed_point`): a holder who re-encodes MACs the same bytes as the verifier did. -/
+theorem signed_is_cleared_bytes (k bs : Bytes) (ds : List Bytes) (tr : Bytes → List Bytes) (m : Mac Bytes)
+    (cs : List (Cav Bytes)) (hd : Concrete.decode bs = some m) (hv : Concrete.verifyBytes k m ds tr = .ok cs) :
+    ((∀ c ∈ m.cavs, WFCav c = true) ∧
+      finIf m.nonce.proof (macChain (Concrete.hmac k (encNonce (Concrete.toNonce m.nonce))) m.cavs) = m.tail) ∧
+    (∃ dcs, cs = m.cavs.filter (kept true) ++ dcs ∧
+      ∀ c ∈ dcs, ∃ d ∈ ds.filterMap Concrete.decode, c ∈ d.cavs) ∧
+    (WFMac (Concrete.toWire m) ∧ ∀ fuel' rest, defaultFuel + 2 ≤ fuel' →
+      decodeMac fuel' (encMac (Concrete.toWire m) ++ rest) = some (Concrete.toWire m)) :=
+  Lemmas.signed_is_cleared_bytes k bs ds tr m cs hd hv
+
+/-- `macChain`, spelled out -/
+theorem macChain_def (t : Bytes) (cs : List (Cav Bytes)) :
+    macChain t [] = t ∧ ∀ c, macChain t (c :: cs) = macChain (Concrete.hmac t (encCav c)) cs :=
+  ⟨by simp only [macChain, List.foldl_nil], fun _ => by simp only [macChain, List.foldl_cons]⟩
 
 /-! ### non-vacuity / sanity -/
 
@@ -350,6 +398,35 @@ example : V.ofMap [(V.ofStr [0x61], V.ofUint 1)] ≠ .nil := by simp [V.ofMap]
 /-- an unregistered caveat whose body was lost (nil on the wire) is the one value `encodable` excludes -/
 example : encodable (.unregistered 0 [] : Cav Bytes) = false ∧ WFCav (.unregistered 0 []) = false := by decide
 
+
+/-- hypotheses of `signed_is_cleared_bytes`: a freshly minted token, encoded, decodes and verifies
+under its key (any key) -/
+example (k : Bytes) (tr : Bytes → List Bytes) :
+    Concrete.decode (encMac (Concrete.toWire (mint k [1] [0x6c] [3] false))) = some (mint k [1] [0x6c] [3] false) ∧
+    Concrete.verifyBytes k (mint k [1] [0x6c] [3] false) [] tr = .ok [] := by
+  constructor
+  · have hw : WFMac (Concrete.toWire (mint k [1] [0x6c] [3] false)) := by
+      refine ⟨?_, ?_, ⟨?_, ?_⟩, ?_⟩
+      · simp only [mint, Concrete.toWire, Concrete.toNonce]; decide
+      · simp only [mint, Concrete.toWire]; decide
+      · simp [mint, Concrete.toWire]
+      · simp only [mint, Concrete.toWire]; decide
+      · simp only [mint, Concrete.toWire]
+        rw [ConcreteCrypto.macNonce_length]; decide
+    have := Macaroon.decode_encode_mac (Concrete.toWire (mint k [1] [0x6c] [3] false)) defaultFuel [] hw
+      (by simp only [mint, Concrete.toWire]; decide)
+    rw [List.append_nil] at this
+    simp only [Concrete.decode, this, Option.map_some]
+    rfl
+  · simp [Concrete.verifyBytes, verify, verifyWith, mint, walk, dischargeAll, Crypto.ctEq]
+
+/-- hypothesis of `unknown_type_is_kept` / `type_number_at`: `[99, {"a": 1}]` -/
+example : decodeCavs 3 ([0x92, 0x63, 0x81, 0xa1, 0x61, 0x01] ++ []) = some [.unregistered 99 [0x81, 0xa1, 0x61, 0x01]] :=
+  (unregistered_passthrough_bytes 99 (V.ofMap [(V.ofStr [0x61], V.ofUint 1)]) 3 [] (by decide) (by decide)
+    (by simp [V.ofMap]) (by decide) (by decide)).1
+/-- the exception: the zeroed value a `nil` body under an unregistered number decodes to cannot be encoded -/
+example : encodable (.unregistered 0 [] : Cav Bytes) = false := by decide
+
 end Macaroon.Props.C11
 
 #print axioms Macaroon.Props.C11.encode_order_independent
@@ -379,3 +456,6 @@ end Macaroon.Props.C11
 #print axioms Macaroon.Props.C11.unknown_type_is_kept
 #print axioms Macaroon.Props.C11.nonCanonical_decodes
 #print axioms Macaroon.Props.C11.nil_body_decodes
+#print axioms Macaroon.Props.C11.type_number_at
+#print axioms Macaroon.Props.C11.signed_is_cleared_bytes
+#print axioms Macaroon.Props.C11.macChain_def
